@@ -84,7 +84,11 @@ pub fn run(ctx: &mut Ctx) {
             for d in d0..(d0 + day_chunk).min(LAST_DAY + 1) {
                 check_date(ctx, d * 86_400, "every-day@0");
                 check_date(ctx, d * 86_400 + 86_399, "every-day@86399");
-                if !quick { check_date(ctx, d * 86_400 + 43_200 + (d % 3600), "every-day@mid"); }
+                if !quick {
+                    check_date(ctx, d * 86_400 + 43_200 + (d % 3600), "every-day@mid");
+                    // one more instant per hour of the day, the minute and second rotating with the day number
+                    for h in 0..24u64 { check_date(ctx, d * 86_400 + h * 3_600 + (d * 61 + h * 7) % 3_600, "every-day@every-hour"); }
+                }
             }
         }
         d0 += day_chunk;
@@ -128,7 +132,7 @@ pub fn run(ctx: &mut Ctx) {
     ctx.sample(|| json!({"fn": "imf_fixdate", "input": 951_782_400u64, "observed": ohkami_lib::imf_fixdate(951_782_400)}));
 
     /* ---- itoa ---- */
-    let lim: usize = if quick { 2_000_000 } else { 10_000_000 };
+    let lim: usize = if quick { 2_000_000 } else { 100_000_000 };
     let chunk = 100_000;
     let mut n0 = 0;
     while n0 < lim {
@@ -150,7 +154,7 @@ pub fn run(ctx: &mut Ctx) {
     ctx.sample(|| json!({"fn": "itoa", "input": u64::MAX, "observed": ohkami_lib::num::itoa(usize::MAX)}));
 
     /* ---- hexized ---- */
-    let lim: usize = if quick { 1 << 21 } else { 1 << 24 };
+    let lim: usize = if quick { 1 << 21 } else { 1 << 27 };
     let chunk = 1 << 17;
     let mut n0 = 0;
     while n0 < lim {
